@@ -19,7 +19,7 @@ import unittest
 from mc.engine import Check, Res
 
 TOKENS = ['-1', '--tagged', '-0', '--istagged', '-v', '-q', '-f', '-W',
-          '-1v', '-v1']
+          '-1v', '-v1', '-k test_a', '-ktest_y']
 #            token -> (tagged, list, regen, unittest residue)
 TOKSEM = {
     '-1': (1, 0, 0, None), '--tagged': (1, 0, 0, None),
@@ -27,6 +27,9 @@ TOKSEM = {
     '-v': (0, 0, 0, '-v'), '-q': (0, 0, 0, '-q'), '-f': (0, 0, 0, '-f'),
     '-W': (0, 0, 1, None), '-1v': (1, 0, 0, '-v'), '-v1': (1, 0, 0, '-v'),
     '-w table': (0, 0, 0, None),
+    # unittest's -k PATTERN (separate and attached value): an ordinary
+    # unittest option that takes a value
+    '-k test_a': (0, 0, 0, '-k test_a'), '-ktest_y': (0, 0, 0, '-ktest_y'),
 }
 MODNAME = 'mc_synth_mod'
 
@@ -185,6 +188,10 @@ class RecRunner(object):
 
 
 def observe(fn):
+    # unittest.main stores -k patterns on the loader it is given; the stock
+    # default loader is a process-wide singleton, so clear what an earlier
+    # in-process run left there (a real run is one main() per process)
+    unittest.defaultTestLoader.testNamePatterns = None
     RecRunner.last = None
     RecRunner.result = None
     out, err = io.StringIO(), io.StringIO()
@@ -458,7 +465,9 @@ class C19(Check):
             want_regen[None] = True
         if '-w table' in argv:
             want_regen['table'] = True
-        residue = [s[3] for s in sem if s[3]]
+        residue = []
+        for s3 in [s[3] for s in sem if s[3]]:
+            residue.extend(s3.split(' '))
         flat = []
         for t in argv:
             flat.extend(t.split(' '))
@@ -539,11 +548,24 @@ class C19(Check):
                            {'argv': real_argv, 'ran': real_log}, sub)
                 sel = [c for c in sorted(mt)
                        if (tr is None or tr.split('.')[0] == c)]
+                # -k patterns narrow the selection like a class name does
+                # (unittest: substring match on the full test id)
+                pats = [t.split(' ', 1)[1] if ' ' in t else t[2:]
+                        for t in argv if t.startswith('-k')]
+
+                def kmatch(c, m):
+                    import fnmatch
+                    full = '%s.%s.%s' % (MODNAME, c, m)
+                    return not pats or any(
+                        fnmatch.fnmatchcase(full, '*%s*' % p) for p in pats)
                 if tr and '.' in tr:
+                    # an explicitly named method is loaded directly; stock
+                    # unittest does not apply -k patterns to it
                     want = set(['%s.%s' % (MODNAME, 'TA')])
                 else:
                     want = set('%s.%s' % (MODNAME, c) for c in sel
-                               if any(tg for (m, tg, f, ce) in mt[c]))
+                               if any(tg and kmatch(c, m)
+                                      for (m, tg, f, ce) in mt[c]))
                     if any(not ce for c in sel for (m, tg, f, ce) in mt[c]):
                         R.unspec += 1
                         continue
@@ -594,6 +616,8 @@ class C19(Check):
                 shape.append('combined')
             elif t == '-w table':
                 shape.append('-w')
+            elif t.startswith('-k'):
+                shape.append('-k-separate' if ' ' in t else '-k-attached')
             else:
                 shape.append('ut')
         return '%s:%s' % (what, '+'.join(shape) or 'none')
